@@ -16,7 +16,7 @@ package main
 //@ end
 
 //@ func hashWithCustomSalt
-//@   property C16 C12 C03
+//@   property C16 C12 C03 C01
 //@   spec chars.smt2 hashstate.smt2
 //@   hooks hasher
 //@   requires len(salt) > 0 && name != ""
@@ -864,14 +864,19 @@ package main
 //@   ensures @package-or-error: r1 != nil ==> r0 == nil
 //@ end
 
+// A test function is exempt from renaming only if it has no receiver and exactly one parameter whose
+// (pointer to) named type is T of the package with import path "testing".
 //@ func isTestSignature
-//@   property C13 C01
+//@   property C13 C01 C02
 //@   assigns nothing
 //@   skip safety
+//@   ensures @only-signatures-taking-the-testing-packages-T-are-test-signatures: r0 ==> isnil(sign.Recv()) && sign.Params().Len() == 1 && namedType(sign.Params().At(0).Type()) != nil && namedType(sign.Params().At(0).Type()).Pkg().Path() == "testing" && namedType(sign.Params().At(0).Type()).Name() == "T"
+//@   ensures @every-such-signature-is-a-test-signature: isnil(sign.Recv()) && sign.Params().Len() == 1 && namedType(sign.Params().At(0).Type()) != nil && namedType(sign.Params().At(0).Type()).Pkg().Path() == "testing" && namedType(sign.Params().At(0).Type()).Name() == "T" ==> r0
 //@ end
 
 //@ func namedType
 //@   property C13 C01
+//@   pure
 //@   assigns nothing
 //@   skip safety
 //@ end
